@@ -136,26 +136,31 @@ def run_case(case, ctx):
 
         # other dtypes of the values array on a grid with non-integer nodes
         va = np.asarray(A.values, dtype=float)
-        for dt in (np.float32, np.int64, np.int32):
-            if dt is not np.float32 and not np.all(va == np.round(va)):
+        va0 = va
+        for dt, kk in ((np.float32, 1), (np.int64, 1), (np.int32, 1), (np.int64, 30), (np.int64, 1000), (np.int16, 150), (np.float32, 1000)):
+            if dt is not np.float32 and not np.all(va0 == np.round(va0)):
                 continue
+            if case["i"] % 3 and kk != 1:
+                continue
+            va = va0 * kk
             Gd = PersLandscapeApprox(values=va.astype(dt), start=0.5 * grid[0] + 0.25, stop=0.5 * grid[1] + 0.25, num_steps=grid[2], hom_deg=0)
             ref_fs = [P.make(list(zip(np.linspace(0.5 * grid[0] + 0.25, 0.5 * grid[1] + 0.25, grid[2]).tolist(), [float(v) for v in depth]))) for depth in va]
-            ctx.state(("grid-dtype", str(np.dtype(dt)), sa))
-            for p in (1, 2, 3, 2.5):
+            ctx.state(("grid-dtype", str(np.dtype(dt)), kk, sa))
+            for p in (1, 2, 3, 2.5, 7, 12, 50):
                 v = ctx.call(Gd.p_norm, p)
                 ref = P.p_norm(ref_fs, p)
                 ctx.valid()
                 tol = (1e-5 if dt is np.float32 else RTOL) * max(ref, 1e-6)
                 if not (is_num(v) and np.isfinite(v) and abs(float(v) - ref) <= tol):
-                    ctx.violation("p-norm-grid", "p_norm(p=%r) of a grid landscape with %s values is not the integral" % (p, np.dtype(dt)),
-                                  observed=v if is_num(v) else repr(v), expected=ref, extra={"grid": grid, "A": sa, "dtype": str(np.dtype(dt))})
+                    ctx.violation("p-norm-grid", "p_norm(p=%r) of a grid landscape with %s values (x%d) is not the integral" % (p, np.dtype(dt), kk),
+                                  observed=v if is_num(v) else repr(v), expected=ref, extra={"grid": grid, "A": sa, "dtype": str(np.dtype(dt)), "times": kk})
             for c_ in (3, 3.0):
                 vs = ctx.call(lambda: (c_ * Gd).p_norm(2))
                 ctx.valid()
                 if not (is_num(vs) and abs(float(vs) - 3.0 * P.p_norm(ref_fs, 2)) <= 1e-5 * max(1e-6, 3.0 * P.p_norm(ref_fs, 2))):
                     ctx.violation("p-norm-grid", "homogeneity fails for %r * P with %s values" % (c_, np.dtype(dt)), observed=vs if is_num(vs) else repr(vs),
                                   expected=3.0 * P.p_norm(ref_fs, 2), extra={"grid": grid, "A": sa})
+        va = va0
         for s in SCALES:
             G = PersLandscapeApprox(values=s * np.asarray(A.values, dtype=float), start=s * grid[0], stop=s * grid[1], num_steps=grid[2], hom_deg=0)
             check_norms(ctx, G, lsops.approx_ref(G), "grid", {"grid": grid, "A": sa, "scaled": s}, ps=PS if 1e-2 <= s <= 1e3 else PS[:-1])
